@@ -146,15 +146,9 @@ func (c *Handler) HandleTokenEndpointRequest(ctx context.Context, request fosite
 		return errorsx.WithStack(fosite.ErrServerError.WithWrap(err).WithDebug(err.Error()))
 	}
 
-	// The PKCE session is consumed only by a request that passed every check below. Deleting it earlier
-	// would let a failed attempt (wrong or malformed verifier) remove the binding, after which a request
-	// without any verifier is treated as if the code had been issued without a challenge.
-	consume := func() error {
-		if err := c.Storage.DeletePKCERequestSession(ctx, signature); err != nil {
-			return errorsx.WithStack(fosite.ErrServerError.WithWrap(err).WithDebug(err.Error()))
-		}
-		return nil
-	}
+	// The PKCE session is not deleted here: a failed attempt (wrong or malformed verifier) must not remove the
+	// binding, and neither must a request whose token issuance fails later on (the authorization code is then
+	// still valid and has to stay bound). It is deleted in PopulateTokenEndpointResponse, once tokens were issued.
 
 	challenge := pkceRequest.GetRequestForm().Get("code_challenge")
 	method := pkceRequest.GetRequestForm().Get("code_challenge_method")
@@ -166,7 +160,7 @@ func (c *Handler) HandleTokenEndpointRequest(ctx context.Context, request fosite
 	nc := len(challenge)
 
 	if !c.Config.GetEnforcePKCE(ctx) && nc == 0 && nv == 0 {
-		return consume()
+		return nil
 	}
 
 	// NOTE: The code verifier SHOULD have enough entropy to make it
@@ -232,10 +226,27 @@ func (c *Handler) HandleTokenEndpointRequest(ctx context.Context, request fosite
 		}
 	}
 
-	return consume()
+	return nil
 }
 
 func (c *Handler) PopulateTokenEndpointResponse(ctx context.Context, requester fosite.AccessRequester, responder fosite.AccessResponder) error {
+	if !c.CanHandleTokenEndpointRequest(ctx, requester) {
+		return nil
+	}
+
+	// The request passed HandleTokenEndpointRequest and the handlers before this one issued the tokens:
+	// the PKCE session has served its purpose.
+	signature := c.AuthorizeCodeStrategy.AuthorizeCodeSignature(ctx, requester.GetRequestForm().Get("code"))
+	if _, err := c.Storage.GetPKCERequestSession(ctx, signature, requester.GetSession()); errors.Is(err, fosite.ErrNotFound) {
+		return nil
+	} else if err != nil {
+		return errorsx.WithStack(fosite.ErrServerError.WithWrap(err).WithDebug(err.Error()))
+	}
+
+	if err := c.Storage.DeletePKCERequestSession(ctx, signature); err != nil {
+		return errorsx.WithStack(fosite.ErrServerError.WithWrap(err).WithDebug(err.Error()))
+	}
+
 	return nil
 }
 
